@@ -170,8 +170,8 @@ def run(ctx, build):
     from nobodd import tftp
     R = ctx.try_runner('Tftp')
     rng = ctx.rng
-    n_val = 60000 if ctx.thorough else 1500
-    n_fuzz = 300000 if ctx.thorough else 6000
+    n_val = 200000 if ctx.thorough else 1500
+    n_fuzz = 1000000 if ctx.thorough else 6000
     if ctx.widen:
         n_val *= 2; n_fuzz *= 2
 
